@@ -91,7 +91,15 @@ def check(case, ctx):
         ctx.cls("derived_strings_len>=%d" % min(6, max(len(s) for s in longer)))
     strings = strings + longer
     want = {xs: ref(xs) for xs in strings}
-    nz = [xs for xs in strings if not M.is_zero(want[xs])]
+    if M.exact:
+        nz = [xs for xs in strings if not M.is_zero(want[xs])]
+    else:
+        # Inexact models have non-negative weights, so a string has non-zero weight iff it has a
+        # derivation: the support is decided exactly on the Boolean skeleton (the float reference may
+        # carry a residue of 1e-17 where the true value is 0, and true weights may be as small as 1e-14)
+        B = model("BOOL")
+        skel = Inside(RG(B, G.S, G.V, [(True, h, b) for (w, h, b) in G.rules]))
+        nz = [xs for xs in strings if skel(xs)]
     ctx.nontrivial = (any(len(xs) > 0 for xs in nz) and len(nz) < len(strings)) or bool(
         nz and "has_nullable" in ctx.classes
     )
